@@ -259,6 +259,39 @@ func runParent(args []string) int {
 	}
 	wg.Wait()
 
+	// optional second pass with another build of the same harness (e.g. the
+	// -race build for C19): same sharding, VERIF_PASS=extra tells Prop.Run
+	// to run only the parts meant for that build.
+	if extra := os.Getenv("VERIF_EXTRA_BIN"); extra != "" {
+		if _, err := os.Stat(extra); err == nil {
+			os.Setenv("VERIF_PASS", "extra")
+			extraRes := make([]*Result, n)
+			var wg2 sync.WaitGroup
+			for k := 0; k < n; k++ {
+				wg2.Add(1)
+				go func(k int) {
+					defer wg2.Done()
+					out := filepath.Join(work, fmt.Sprintf("extra%d.json", k))
+					res, se, ok := spawnWorker(extra, id, *tier, k, n, out, "", 0, hard)
+					if !ok && res == nil {
+						res = &Result{EngineError: "extra-pass worker died: " + tail(se, 600)}
+					}
+					extraRes[k] = res
+				}(k)
+			}
+			wg2.Wait()
+			os.Unsetenv("VERIF_PASS")
+			for k := 0; k < n; k++ {
+				if results[k] != nil && extraRes[k] != nil {
+					// sections of the extra pass are appended
+					results[k].Sections = append(results[k].Sections, extraRes[k].Sections...)
+					extraRes[k].Sections = nil
+					merge(results[k], extraRes[k])
+				}
+			}
+		}
+	}
+
 	total := &Result{}
 	engineErr := ""
 	for k := 0; k < n; k++ {
